@@ -10,7 +10,7 @@ from .tlc import MachineryError, run_tlc
 from .traces import validate
 
 FLOW_FORMATS = ["docx", "odt", "html", "mhtml", "epub", "rtf"]
-MULTI = {"deck": ["pptx", "odp", "odg"], "book": ["xlsx", "ods"],
+MULTI = {"deck": ["pptx", "odp", "odg"], "book": ["xlsx", "ods", "xls"],
          "pages": ["pdf", "txt", "md", "csv", "tsv", "json", "rtf", "epub"]}
 
 def gen_units(ctx, kind, max_units):
